@@ -73,6 +73,24 @@ Theorem C01_physical_qubit_held_once : forall s i j q q',
 Proof. exact qid_identifies_held_qubit. Qed.
 Print Assumptions C01_physical_qubit_held_once.
 
+(* a qubit created inside a register (remote_new_qubit_inreg): |0> is appended at the end of exactly the named register of the asked
+   node, recorded under the fresh identity; every other register of the network is untouched.  A client-made register starts empty. *)
+From Coq Require Import Permutation.
+Theorem C01_create_in_register_appends_to_named_register : forall s n ow k v,
+  reachable s -> snd (step s (ONewInReg n ow k)) = Ok v ->
+  ow = n /\ exists r rest, In r (regs (nth_node s n)) /\ r_num r = k /\ r_n r < r_max r /\
+    Permutation (all_regs s) (r :: rest) /\
+    Permutation (all_regs (fst (step s (ONewInReg n ow k))))
+      (mkReg (r_num r) (r_max r) (S (r_n r)) (add_qubit (r_n r) (r_tab r)) (r_ids r ++ [next_hid s]) :: rest).
+Proof. exact new_inreg_appends_to_named_register. Qed.
+Print Assumptions C01_create_in_register_appends_to_named_register.
+
+Theorem C01_create_register_adds_one_empty_register : forall s n mq v, snd (step s (ONewReg n mq)) = Ok v ->
+  v = nextReg (nth_node s n) /\
+  Permutation (all_regs (fst (step s (ONewReg n mq)))) (mkReg v mq 0 [] [] :: all_regs s).
+Proof. exact newreg_adds_one_empty_register. Qed.
+Print Assumptions C01_create_register_adds_one_empty_register.
+
 (* ================= layer 2: joint stabilizer group = ideal group ============================================================ *)
 
 (* MAIN THEOREM.  s = the network after the program; st = the ideal register after the translated program (same coins). *)
